@@ -100,7 +100,7 @@ def obligations(tier):
                           desc="Poly1305 one-shot and 3-chunk streaming feed exactly the RFC 8439 block sequence (padding, final flag) into the (abstract) block function; same tag; verify exact; key clamping",
                           bounds="all message/key/tag bytes; (len, split a, split b) enumerated"))
     obs.append(Ob("poly1305-sse2-finalize", "C04/poly1305_sse2_fin.c", units=["sodium/utils.c", "crypto_verify/verify.c"], stubs=["misuse.c", "libc.c", "x86_builtins.c"],
-                  undefs=["HAVE_AMD64_ASM"], unwind=20, timeout=900, mem=6, nochecks=True, family="poly1305-finish",
+                  undefs=["HAVE_AMD64_ASM"], unwind=20, timeout=1500, mem=30, nochecks=True, family="poly1305-finish",
                   desc="SSE2 unit: poly1305_finish (lane combination, SIMD carry chain, 26->44-bit limbs, carry passes, conditional subtraction of p, pad) == (((lane0 + lane1) mod 2^130-5) + pad) mod 2^128 with r = 1",
                   bounds="both accumulator lanes (10 limbs < 2^27) and the pad symbolic; key fixed to r = 1 (lane multiplication is the identity); pad addition through the unit's portable branch"))
     obs.append(Ob("poly1305-finish", "C04/poly1305_glue.c", units=["sodium/utils.c", "crypto_verify/verify.c"], stubs=["misuse.c", "libc.c", "x86_builtins.c"],
